@@ -19,6 +19,7 @@ func init() {
 		Assumptions: []string{"timestamps are normalised (0 <= nanos < 1e9)"},
 		Run:         runC18,
 		Controls: []Control{
+			{Name: "minat-zeroes-the-magnitude-of-a-mode-without-a-segment", Silent: true, File: "pkg/trait/electricpb/modepb/magnitude.go", Old: "\t\tmag, _ := MagnitudeAt(t, electricMode)\n", New: "\t\tmag, ok := MagnitudeAt(t, electricMode)\n\t\tif !ok {\n\t\t\tmag = 0\n\t\t}\n"},
 			{Name: "later-nanos-compare-equal", File: "pkg/time/timestamp.go", Old: "\tcase t1.Nanos > t2.Nanos:\n", New: "\tcase t1.Seconds > t2.Seconds && t1.Nanos > t2.Nanos:\n", Expect: "R18.1"},
 			{Name: "minat-skips-modes-without-a-segment", File: "pkg/trait/electricpb/modepb/magnitude.go", Old: "\t\tmag, _ := MagnitudeAt(t, electricMode)\n", New: "\t\tmag, ok := MagnitudeAt(t, electricMode)\n\t\tif !ok {\n\t\t\tcontinue\n\t\t}\n", Expect: "R18.12"},
 			{Name: "mode-magnitude-through-the-active-index", File: "pkg/trait/electricpb/modepb/magnitude.go", Old: "\treturn segmentpb.MagnitudeAt(t.Sub(tOrST(t, mode)), mode.GetSegments()...)", New: "\t_, i := ActiveAt(t, mode)\n\tif i >= len(mode.GetSegments()) {\n\t\treturn 0, false\n\t}\n\treturn mode.GetSegments()[i].Magnitude, true", Expect: "R18.10"},
